@@ -85,6 +85,11 @@ CHECKS = {
         technique='explicit-state search of the default-configuration state space (32 states x 243 set_default_config operations, all transitions executed on the real module) with a complete observation vector per state (3 probes x 3^6 explicit/default combinations x every entry point) against a dictionary-merge reference model',
         text='Every set_default_config operation is executed from every reachable default configuration and compared with a dict-update model (state, return value, get_default_config, no other key changed). In the states observed, every combination of explicit/defaulted settings is pushed through pformat, pprint (three end strings), cpprint with colour off, PrettyPrinter.pformat/pprint and pretty_repr; all must equal the reference text for the merged effective settings, and that text must be the same in every state and from a second history. No test calls set_default_config or PrettyPrinter at all.',
         note='trusted: fully explicit pformat output as reference for its effective settings (cross-checked between states); quick observes the pristine state, the all-b state and a seed-rotated third of the 32 states, thorough all of them; a harness self-check fails the run if a setting is not observable through the probes'),
+    'C19': dict(
+        category='model_checking', design_ref='DESIGN.md 4/C19',
+        technique='explicit-state BFS over print histories from the restored cold registry snapshot, states read back from the real globals (pending by-name registrations, promoted classes, cached struct-sequence classes); in every state every corpus value is printed and compared with its first print in a fresh interpreter; deep input snapshots around every print; id() seam',
+        text='Starting from the cold registries, the search prints every corpus value in every reachable warm-up state (all 2^7 combinations of the lazily initialised mechanisms are reached, so every order and repetition of first uses is covered up to state equivalence) and requires the text of the first print of that value in a fresh interpreter. Every print is bracketed by a canonical deep snapshot of the input (types, ordered contents, public attributes, aliasing) and repeated with id() perturbed inside the package, which turns dependence on allocation addresses into a deterministic difference. No test compares one value across two histories.',
+        note='trusted: subprocess reference with the same PYTHONHASHSEED; private (underscore) attributes of opaque objects are treated as caches, not as value; lazily normalised layout constants cannot be reset inside one interpreter - their cold case is the fresh-interpreter reference'),
     'C20': dict(
         category='model_checking', design_ref='DESIGN.md 4/C20',
         technique='stateless model checking of the real code: real threads under a deterministic cooperative scheduler (sys.settrace line events inside the package), all schedules up to a preemption bound enumerated depth-first over choice prefixes (iterative context bounding), result of every thread compared with the sequential run',
